@@ -269,9 +269,12 @@ Exec(st0, i, j) ==
          LET r == Ev(st, ins.e) IN
          IF Stop(r.s) THEN r.s
          ELSE IF ins.op = "warn" /\ Splice(r.v) = NoCss THEN Fail(r.s)
-         ELSE Exec(Emit(r.s, [k |-> ins.op, msg |-> IF ins.op = "debug" THEN Inspect(r.v) ELSE Splice(r.v), at |-> i]), i + 1, j)
+         ELSE Exec(Emit(r.s, [k |-> ins.op, msg |-> IF IsStringy(r.v) THEN r.v.v                       \* a string is shown as its text
+                                                           ELSE IF ins.op = "debug" THEN Inspect(r.v) ELSE Splice(r.v),
+                                                   at |-> i]), i + 1, j)
     [] ins.op = "error" ->
-         LET r == Ev(st, ins.e) IN IF Stop(r.s) THEN r.s ELSE Fail(r.s)
+         LET r == Ev(st, ins.e) IN IF Stop(r.s) THEN r.s
+                                   ELSE [Fail(r.s) EXCEPT !.einfo = [msg |-> Inspect(r.v), at |-> i]]   \* @error reports inspect(value)
     [] ins.op = "rule" ->
          LET e == st.mt[i]
              s1 == Push([st EXCEPT !.semi = FALSE,
@@ -326,7 +329,7 @@ Exec(st0, i, j) ==
 InitState(p, fuel) ==
   [p |-> p, mt |-> MatchTable(p), frames |-> <<EmptyFrame>>, env |-> <<1>>, semi |-> TRUE, sel |-> "",
    content |-> NoContent, infn |-> FALSE, inmixin |-> FALSE, out |-> <<>>, err |-> FALSE, unk |-> FALSE,
-   ret |-> NoRet, fuel |-> fuel, steps |-> 0]
+   ret |-> NoRet, fuel |-> fuel, steps |-> 0, einfo |-> [msg |-> "", at |-> 0]]
 
 Run(p, fuel) == Exec(InitState(p, fuel), 1, Len(p) + 1)
 
